@@ -52,6 +52,7 @@ def pool_strategy(kinds=("functor", "factory"), max_calls=1, quotas=(None,), max
         "end_delay": st.sampled_from([0, 0, 30, 400]),
         "ready_at": st.sampled_from([None, None, 0, 1]),
         "ready_mid": st.sampled_from([None, None, None, [0, 1], [0, 2], [1, 1], [0, 3]]),
+        "join_timeout": st.sampled_from([None, None, None, None, 1, 30]),
         "ready_thread": st.sampled_from([None, None, None, {"start": 0, "gap": 1, "reps": 8}, {"start": 10, "gap": 3, "reps": 5},
                                          {"start": 30, "gap": 10, "reps": 3}]),
         "sched": sched or schedules.strategy(),
@@ -193,7 +194,7 @@ def minimise(case, sig, verdict_fn, budget=400):
                 d = copy.deepcopy(c)
                 d["calls"][i]["n"] = call["n"] // 2
                 yield d
-        for key, val in (("slow", {}), ("cdelay", [0]), ("begin_delay", 0), ("repl_begin_delay", 0), ("end_delay", 0), ("ready_at", None), ("ready_mid", None), ("ready_thread", None), ("rq", None), ("wq", "1.0")):
+        for key, val in (("slow", {}), ("cdelay", [0]), ("begin_delay", 0), ("repl_begin_delay", 0), ("end_delay", 0), ("ready_at", None), ("ready_mid", None), ("ready_thread", None), ("join_timeout", None), ("rq", None), ("wq", "1.0")):
             if c.get(key) != val:
                 d = copy.deepcopy(c)
                 d[key] = val
